@@ -92,6 +92,14 @@ func genC01(t *rapid.T) c01Case {
 			c.Initial = append(c.Initial, nil)
 		}
 	}
+	if rapid.IntRange(0, 29).Draw(t, "hugefile") == 0 {
+		// a snapshot file of a few hundred KiB (many medium entries): crosses every read-buffer boundary of the scanners
+		var es []Entry
+		for i := 1; i <= rapid.IntRange(30, 60).Draw(t, "nhuge"); i++ {
+			es = append(es, Entry{ID: BS(entryID(names[ntests], i)), Body: BS(bigText(t))})
+		}
+		c.Initial[0] = append(es, c.Initial[0]...)
+	}
 	for i := 0; i < ntests; i++ {
 		ncalls := rapid.IntRange(1, 8).Draw(t, "ncalls")
 		if rapid.IntRange(0, 6).Draw(t, "many") == 0 {
@@ -228,6 +236,9 @@ func classifyC01(c c01Case) ([]string, bool) {
 	for _, es := range c.Initial {
 		if len(es) > 0 {
 			cls = append(cls, "preexisting_entries")
+		}
+		if len(es) >= 30 {
+			cls = append(cls, "file_over_128k")
 		}
 	}
 	if len(c.Cfgs) > 1 {
